@@ -9,6 +9,6 @@ SCR=$(mktemp -d /tmp/seedrun.XXXXXX)
 mkdir -p $SCR/repo && cp -r /repo/src /repo/tests $SCR/repo/ 2>/dev/null
 PATCH=/verif/seeded/$SEED/patch.diff; [ -f /verif/seeded/$SEED/patch_on_fixed_tree.diff ] && PATCH=/verif/seeded/$SEED/patch_on_fixed_tree.diff
 ( cd $SCR/repo && git init -q . && git apply $PATCH ) || { echo "patch failed"; rm -rf $SCR; exit 9; }
-cd /verif && VERIF_REPO=$SCR/repo ./check $PID --tier quick "$@" 2>&1 | grep -E "^\[|VIOLATION|KNOWN|CHECKER|UNDEC|failed obligation" | head -${LINES_MAX:-14}
+cd /verif && VERIF_OUT=$SCR/out VERIF_REPO=$SCR/repo ./check $PID --tier quick "$@" 2>&1 | grep -E "^\[|VIOLATION|KNOWN|CHECKER|UNDEC|failed obligation" | head -${LINES_MAX:-14}
 echo "exit=${PIPESTATUS[0]}"
 rm -rf $SCR
